@@ -137,7 +137,7 @@ func run(c *reg.Ctx) {
 		{new(big.Int).Neg(b64), -1e30, math.Inf(-1)},
 		{b64, p("36893488147419103232"), math.Inf(1)},
 		{big.NewRat(1, 3), 0.3333333333333333, big.NewRat(33333333, 100000000)},
-		{big.NewRat(1, 2), 0.5, 1},
+		{big.NewRat(1, 2), 0.5, 1}, {big.NewRat(1, 2), big.NewRat(1, 3), big.NewRat(2, 3)}, {big.NewRat(-7, 3), big.NewRat(-7, 5), big.NewRat(7, 3)},
 		{0.0, nz, 0}, {math.NaN(), math.NaN(), math.Inf(-1)}, {math.NaN(), 0, "a"},
 		{vals.MakeList(math.NaN()), vals.MakeList(math.NaN()), vals.MakeList(math.NaN(), 1)},
 		{vals.MakeList(1, 2), vals.MakeList(1, 2.0), vals.MakeList(1)},
